@@ -174,7 +174,7 @@ theorem inv_stepStart (c : Cfg) (s : St) (t : Nat) (rest : List (Nat × Option F
     subst hm'
     simp only [Bool.false_eq_true, ↓reduceIte]
     by_cases hsc : (c.startCheck && s.refs xp != some t) = true
-    · -- (patch) stale reference
+    · -- stale reference (since 0c5ea5c)
       simp only [hsc, ↓reduceIte]
       have hd : Doomed c s t ⟨xp, xk, .start, false⟩ := by
         simp only [Bool.and_eq_true, bne_iff_ne, ne_eq] at hsc
